@@ -61,6 +61,12 @@ def judgeMutex : Judge := liftJudge fun input obs => do
   if unlockErrs != 0 then
     return { agree := true, spec := true, tags := tags, nontrivial := false }
   let free := probeOK && leftover == 0 && stale == 0
+  let timeoutMs := optInt input "timeoutMs"
+  -- with a lock timeout of the order of one etcd round trip the cleanup delete after a failed
+  -- Lock (same timeout) can itself time out on a loaded machine: not judged, only reported
+  if !free && timeoutMs < 200 && exclusiveTrace none evs && maxInside ≤ 1 then
+    return { agree := modelOK, spec := true, tags := tags ++ ["not-free:short-timeout-inconclusive"]
+               ++ (if stale != 0 then ["stale-key-observed"] else []), nontrivial := false }
   let recovered := failuresRecovered probeOK evs
   let spec := excl && free && recovered
   let sig := if spec then "" else
@@ -144,6 +150,9 @@ def judgeAPI : Judge := liftJudge fun input obs => do
   let hcSpec := checkHistory apply e0 ops final finalVer
   let hcModel := checkHistory (fun e r => exec r e) e0 ops final finalVer
   let unexpected := statuses.any fun s => s ≥ 500
+  -- a 5xx (etcd / lock timeout on an overloaded machine) may be a half-executed handler: not judged
+  if unexpected then
+    return { agree := true, spec := true, tags := ["5xx-inconclusive"], nontrivial := false }
   let spec := hcSpec.all && invalidOK
   let agree := hcModel.all && invalidOK && bad.isEmpty && !unexpected
   let sig := if spec then "" else
